@@ -9,6 +9,7 @@ DECIDED = [
     'R2: winner selection tables: leaf merge returns the older node iff it has strictly higher priority and calls winner._replace_other(loser); the container merge tail calls self._replace_self(other) iff p(other) >= p(self); function-node merges let the newer node win ties.',
     'R3: _replace_self adopts other._priority, _replace_other keeps its own; survivor metadata is {**loser, **winner}.',
     'R4: every field assigned to an already-built child on adoption (_kwargs_to_inherit) is pushed to all descendants by a recursive propagation called from the adopt branch; R4b: node-local constructor arguments are removed before children are built and are disjoint from the inheritable ones.',
+    'R4c: children attached later (set_child) receive only the implicit flag channel from the container, never its priority.',
     'R5: !force / !weak constructors set exactly priority=FORCE / WEAK on a plain node.',
 ]
 UNDECIDED = ['behaviour over >= 3-stage histories as data (which writer a concrete document sequence selects);', 'type promotion (_maybe_promote).']
@@ -23,6 +24,7 @@ def check(repo, run, tier):
     mr.survivor_fields(repo, run, 'C03.R3')
     names = mr.inheritance_reach(repo, run, 'C03.R4')
     mr.node_local_kwargs(repo, run, 'C03.R4b', names)
+    mr.child_kwargs_keys(repo, run, 'C03.R4c')
     check_flag_tags(repo, run, 'C03.R5', tags={'!force', '!weak'})
 
 
@@ -46,6 +48,7 @@ def mutants(repo):
         Mutant('F9-reverted-no-priority-propagation', lambda r: delete_stmt(r, 'ConfigNodeMeta.__call__', lambda t: t.startswith("if 'priority' in kwargs")), ['C03.R4']),
         Mutant('priority-propagation-not-recursive', lambda r: in_func(r, 'ComposedNode._propagate_priority', "            child._propagate_priority()\n", "            pass\n"), ['C03.R4']),
         Mutant('priority-popped-before-children', lambda r: in_func(r, 'ComposedNode.__init__', "kwargs.pop('idx', None)", "kwargs.pop('idx', None)\n        kwargs.pop('priority', None)"), ['C03.R4b']),
+        Mutant('set_child-stamps-container-priority', lambda r: in_func(r, 'ComposedNode._get_child_kwargs', "        ret['implicit_allow_new'] =", "        if self._priority is not None:\n            ret['priority'] = self._priority\n        ret['implicit_allow_new'] ="), ['C03.R4c']),
         Mutant('force-tag-sets-weak', lambda r: in_func(r, 'yaml._force_constructor', "ConfigNode.FORCE", "ConfigNode.WEAK"), ['C03.R5']),
         Mutant('neutral-has_priority-local', lambda r: in_func(r, 'ConfigNode.ayns.has_priority_over',
                "            if self.ayns.priority == other.ayns.priority:\n                return if_equal\n            return self.ayns.priority > other.ayns.priority",
